@@ -869,7 +869,8 @@ def oracle_square_chain(tn, Y, seed=0):
     n = list(A.shape)
     inp = dict(fn='sample_square', Y=[G.tolist() for G in Y], forced='every multi-index; argument forms of n (list, tuple, int32/int64/uint8 array, NumPy scalars, float array / '
                               'list with integral values) and m (int, float, NumPy scalars), integer / float32 cores; sample_lhs usage '
-                              'counts on the grid k <= 12, every m <= 400 and m = t*k, t <= 200', unique=False)
+                              'counts on the grid k <= 12, every m <= 400 and m = t*k, t <= 200; sample_tt block structure (one left set x mode '
+                              'range x one right set, offsets) for seeds None / Generator / int, d = 3..5', unique=False)
     nrm = float((A ** 2).sum())
     if nrm <= 0:
         return None
@@ -1025,6 +1026,9 @@ def oracle_tt(tn, n, r, seed):
     f = check_int_array(I, I.shape[0], n, 'sample_tt', inp)
     if f:
         return f
+    bad = tt_block_structure(I, idx, im, n, r)
+    if bad:
+        return dict(what='sample_tt: ' + bad[0], input=inp, mode=bad[1], at=bad[2])
     for k in range(d):
         L1 = tn.sample_lhs(n[:k], r, seed=seed) if k > 0 else None
         L2 = tn.sample_lhs(n[k + 1:], r, seed=seed) if k < d - 1 else None
@@ -1046,6 +1050,30 @@ def oracle_tt(tn, n, r, seed):
                                          'is not at (v*len_1 + a)*len_2 + c', input=inp, mode=k, at=[a, v, c],
                                     got=got, expected=exp)
     return None
+
+
+def tt_block_structure(I, idx, im, n, r):
+    """seed-independent layout of sample_tt: block k has n_k * len_1 * len_2 rows and is the product, in the order
+    (mode value v, left sample a, right sample c), of ONE set of left rows, the full range of mode k and ONE set of
+    right rows.  Returns None or (description, mode, position)."""
+    d = len(n)
+    for k in range(d):
+        l1 = 1 if (k == 0 and d > 1) else r
+        l2 = 1 if k == d - 1 else r
+        if int(im[k]) != l2 or int(idx[k + 1] - idx[k]) != n[k] * l1 * l2:
+            return ('block length or idx_many differ from n_k * len_1 * len_2', k, None)
+        blk = np.asarray(I[idx[k]:idx[k + 1]])
+        L1 = [blk[a * l2, :k].tolist() for a in range(l1)]             # left rows as they appear for v = 0, c = 0
+        L2 = [blk[c, k + 1:].tolist() for c in range(l2)]              # right rows as they appear for v = 0, a = 0
+        for v in range(n[k]):
+            for a in range(l1):
+                for c in range(l2):
+                    row = blk[(v * l1 + a) * l2 + c].tolist()
+                    if row != L1[a] + [v] + L2[c]:
+                        return ('a block is not the product of one left set, the mode range and one right set '
+                                '(row (v*len_1 + a)*len_2 + c differs from left[a] ++ [v] ++ right[c])', k, [v, a, c])
+    return None
+
 
 
 def oracle_unique(tn, Y, m, seed):
@@ -1301,18 +1329,9 @@ def oracle_seedkind(tn, fn, seedkind, args):
                 f = check_int_array(I, I.shape[0], args['n'], fn, inp)
                 if f:
                     return f
-                r = args['r']
-                for k in range(d):
-                    l1 = 1 if (k == 0 and d > 1) else r
-                    l2 = 1 if k == d - 1 else r
-                    if idx[k + 1] - idx[k] != args['n'][k] * l1 * l2 or im[k] != l2:
-                        return dict(what=f'sample_tt(seed={seedkind}): block length or idx_many differ from '
-                                         'n_k * len_1 * len_2', input=inp, mode=k)
-                    blk = I[idx[k]:idx[k + 1]]
-                    exp_col = np.repeat(np.arange(args['n'][k]), l1 * l2)
-                    if blk[:, k].tolist() != exp_col.tolist():
-                        return dict(what=f'sample_tt(seed={seedkind}): mode column of a block is not in product order',
-                                    input=inp, mode=k)
+                bad = tt_block_structure(I, idx, im, [int(x) for x in args['n']], int(args['r']))
+                if bad:
+                    return dict(what=f'sample_tt(seed={seedkind}): ' + bad[0], input=inp, mode=bad[1], at=bad[2])
                 return None
             if fn == 'sample_rand_poi':
                 X = np.asarray(tn.sample_rand_poi(args['a'], args['b'], args['m'], seed=seed))
@@ -1448,6 +1467,12 @@ def search(R, ctx, deep, hints):
                           ('sample_tt', dict(n=nn_, r=rng.randint(1, 3))),
                           ('sample_rand_poi', dict(a=aa, b=[x + 2.5 for x in aa], m=rng.choice([1, 4, 2.0])))):
             cand.append(dict(fn=fn_, kind='seedkind', seedkind=sk, args=args))
+    # sample_tt block structure for every kind of seed (None / Generator draw fresh numbers at every sample_lhs call)
+    for t in range(12 if deep else 6):
+        dd = [3, 4, 5][t % 3]
+        for sk in ('None', f'gen{rng.randrange(1000)}', '0', str(rng.randrange(1, 10 ** 6))):
+            cand.append(dict(fn='sample_tt', kind='seedkind', seedkind=sk,
+                             args=dict(n=[rng.randint(2, 4) for _ in range(dd)], r=rng.randint(2, 3))))
     # argument forms: n as list / tuple / int32, int64, uint8 array / NumPy scalars / float array or list with integral
     # values, m as int / float / NumPy scalars, integer and float32 cores: integer result, shape, bounds
     for t in range(16 if deep else 8):
@@ -1516,7 +1541,8 @@ def search(R, ctx, deep, hints):
                               'mixed-sign cores (integer unimodular gauge, QR sweep, rotations, Kronecker squares), d = 3..5, '
                               'every multi-index; argument forms of n (list, tuple, int32/int64/uint8 array, NumPy scalars, float array / '
                               'list with integral values) and m (int, float, NumPy scalars), integer / float32 cores; sample_lhs usage '
-                              'counts on the grid k <= 12, every m <= 400 and m = t*k, t <= 200',
+                              'counts on the grid k <= 12, every m <= 400 and m = t*k, t <= 200; sample_tt block structure (one left set x mode '
+                              'range x one right set, offsets) for seeds None / Generator / int, d = 3..5',
                          evaluations=n_eval, failures=len(fails), deep=deep))
     return fails
 
